@@ -14,7 +14,7 @@ RULE = ('(fit) data files of 1-12 lines mixing eligible / ineligible sources (n_
         'output_convolved on/off, 2-D and 3-D packages: fit() output read back and compared record by record with Fitter.fit + keep on the parsed line; '
         '(roundtrip) 1-6 hand-built records incl. NaN/inf written and read back with metadata; (history) 1-3 sources, every sequence drawn from '
         '{write_parameters, write_parameter_ranges, extract_parameters, filter_output} x selectors of length <= 3, run on a file, on a single object and on a list, '
-        'outputs compared across forms and the caller\'s objects compared before/after. non-trivial = at least one eligible and one ineligible line / >= 2 calls.')
+        'outputs compared across forms and the caller\'s objects compared before/after; (plot) cube packages as in C17: plot(show_convolved=True) called twice with different selectors on a file, a list and a single object. non-trivial = at least one eligible and one ineligible line / >= 2 calls.')
 EXHAUSTIVE = {'quick': False, 'thorough': False}
 ASSUMPTIONS = ['pickle is a lossless, self-delimiting store (exercised, not proved)', 'a run that writes no record leaves a zero-byte file (nothing claimed): every data file has an eligible source']
 
@@ -70,6 +70,11 @@ def generate(tier, seed):
             sources.append(dict(name='src%d' % s, nd=rng.choice(list(c09.FLAGSETS)),
                                 fits=[dict(name=n, chi2=x, av=rng.dyadic(0, 20, 8), sc=rng.dyadic(-2, 2, 8)) for n, x in zip(chosen, chi)]))
         cases.append(dict(kind='history', table=tab['table'], sources=sources, ops=ops, chi_thr=rng.dyadic(1, 25, 6) + 2.0 ** -11))
+    # post-processing by plot(): cube packages as in C17, results passed as file / list / single object, convolved fluxes shown
+    import c17
+    for c in c17.generate('quick', seed)[:(12 if tier == 'quick' else 60)]:
+        c = dict(c, kind='plot', sels=[rng.randint(1, 3), rng.randint(2, 5)])
+        cases.append(c)
     return cases
 
 
@@ -199,8 +204,63 @@ def _scrub(x, d):
     return x
 
 
+def _impl_plot(case):
+    """plot(show_convolved=True) twice with different selectors on the same results, passed as a file, as a list and as one object"""
+    import numpy as np
+    import matplotlib
+    matplotlib.use('Agg')
+    from astropy import units as u
+    from sedfitter.fit import Fitter
+    from sedfitter.fit_info import FitInfoFile
+    from sedfitter import plot
+    import pkgcase
+    pkg = case['pkg']
+    with tempfile.TemporaryDirectory() as d:
+        pkgcase.write_v2(d, pkg, logd_step=0.05)
+        names = [pkg['wav'][i] * u.micron for i in case['fidx']]
+        dr = np.array(case.get('drange', [1.0, 2.0])) * u.kpc
+        fitter = Fitter(names, np.array(case['theta']) * u.arcsec, d, extinction_law=fitcase.make_extinction(case['ext']), av_range=tuple(case['av_range']),
+                        distance_range=dr, use_memmap=False)
+        srcs = [dict(case['src'], name='src')] + [dict(case['src'], name='src_more%d' % i, flux=[x * c for x in case['src']['flux']], err=[x * c for x in case['src']['err']])
+                                                  for i, c in enumerate(case.get('more', []))]
+
+        def fresh():
+            return [fitter.fit(fitcase.make_source(sd)) for sd in srcs]
+        infos = fresh()
+        p = os.path.join(d, 'fits.fitinfo')
+        f = FitInfoFile(p, 'w')
+        for i in infos:
+            f.write(i)
+        f.close()
+
+        def run(arg):
+            out = []
+            for n in case['sels']:
+                figs = plot(arg, output_dir=None, select_format=('N', n), sed_type=case['mode'], show_convolved=True, memmap=False)
+                out.append({k: [[[float(x), float(y)] for x, y in sg] for sg in fg['lines'].get_segments()] if 'lines' in fg else [] for k, fg in figs.items()})
+                import matplotlib.pyplot as plt
+                plt.close('all')
+            return out
+        res = {}
+        try:
+            res['file'] = run(p)
+            lst = fresh()
+            before = [fitutil.info_state(i) for i in lst]
+            res['list'] = run(lst)
+            res['list_unchanged'] = [fitutil.info_state(i) for i in lst] == before
+            one = fresh()[0]
+            b1 = fitutil.info_state(one)
+            res['object'] = run(one)
+            res['object_unchanged'] = fitutil.info_state(one) == b1
+        except Exception as e:
+            if 'too small' in str(e):
+                return dict(skipped='aperture on the table edge')
+            raise
+    return res
+
+
 def impl(case):
-    return {'fit': _impl_fit, 'roundtrip': _impl_roundtrip, 'history': _impl_history}[case['kind']](case)
+    return {'fit': _impl_fit, 'roundtrip': _impl_roundtrip, 'history': _impl_history, 'plot': _impl_plot}[case['kind']](case)
 
 
 # ---------------------------------------------------------------------------
@@ -245,6 +305,23 @@ def judge(case, im, mo):
     if 'exc' in im:
         return dict(disagree=['implementation raised ' + im['msg']], fail=['raised: %s' % im['msg']], nontrivial=False, tags=tags + ['raised'])
     disagree, fail = [], []
+    if case['kind'] == 'plot':
+        if 'skipped' in im:
+            return dict(disagree=[], fail=[], nontrivial=False, tags=tags + ['refused'])
+        if not im['list_unchanged']:
+            fail.append('unchanged: plot(list of results, show_convolved=True) modified the results it was given')
+        if not im['object_unchanged']:
+            fail.append('unchanged: plot(single result, show_convolved=True) modified the result it was given')
+
+        def near(a, b):
+            return len(a) == len(b) and all(len(x) == len(y) and all(abs(p[0] - q[0]) <= 1e-9 * abs(q[0]) and abs(p[1] - q[1]) <= 1e-9 * abs(q[1]) for p, q in zip(x, y)) for x, y in zip(a, b))
+        for k in range(len(case['sels'])):
+            for form in ('list', 'object'):
+                for src, segs in im[form][k].items():
+                    if not near(segs, im['file'][k].get(src, [])):
+                        fail.append('forms: plot() call %d draws other curves for %s from a %s of results than from the file' % (k, src, form))
+                        break
+        return dict(disagree=[], fail=fail[:3], nontrivial=True, tags=tags + ['mode=' + case['mode']])
     if case['kind'] == 'fit':
         m = mo[0]
         if isinstance(m, tuple):
